@@ -141,8 +141,13 @@ def check_listing(ctx, tc):
             if not extra and listed[name] == whole:
                 # Tezos has no name for the root here (default is a branch): the invented one collides.  If Tezos does fix the
                 # root's name (default) the clash is a different, more serious class.
-                ctx.mismatch('C13:list_entrypoints:root-name-collides-with-branch' if not tc.root_asserted else
-                             'C13:list_entrypoints:root-not-default:collides-with-branch',
+                if not tc.root_asserted:
+                    # a branch annotated %root while %default is taken too: whether Tezos admits a branch of that (reserved) name is
+                    # not certain enough to alarm -> outside the compared domain
+                    ctx.skip('branch named %root together with a %default branch (reserved-name corner)')
+                    tc.collision = True
+                    return False
+                ctx.mismatch('C13:list_entrypoints:root-not-default:collides-with-branch',
                              'parameter %s: the name pytezos gives to the whole parameter (%r) is also the annotation of a branch; the branch of type %s '
                              'is listed with the type of the whole parameter' % (michelson(T), name, plain(bt)), tc.case(kind='list'))
                 tc.collision = True
@@ -295,6 +300,8 @@ def run_family(ctx, name, depth, names, rots, timeout, type_annots=False):
         ctx.count(('list', T), nontrivial=nt)
         if tc.cls is None:
             continue
+        if tc.collision and not tc.root_asserted:
+            continue          # reserved-name corner: whole type outside the compared domain (counted as skipped)
         good = ok
         for v, best in d['split']:
             good = check_split(ctx, tc, v, best) and good
